@@ -227,35 +227,12 @@ func runC04(c *Ctx) {
 			construct := fmt.Sprintf("%s: request handed to the writer", fname(s.Parent()))
 			arg := s.Common().Args[len(s.Common().Args)-1]
 			switch {
-			case s.Parent() == r.FnLoop && c.fromRequestQueue(arg):
-				// must not sit in a loop nested inside the accept arm
-				arm := w.Arms["requests"]
-				inner := false
-				if arm.Body != nil {
-					blocks := armBlocks(arm)
-					// a cycle entirely inside the arm
-					seen := map[*ssa.BasicBlock]bool{}
-					var dfs func(b *ssa.BasicBlock) bool
-					dfs = func(b *ssa.BasicBlock) bool {
-						for _, sc := range b.Succs {
-							if !blocks[sc] {
-								continue
-							}
-							if sc == s.Block() {
-								return true
-							}
-							if !seen[sc] {
-								seen[sc] = true
-								if dfs(sc) {
-									return true
-								}
-							}
-						}
-						return false
-					}
-					inner = dfs(s.Block())
-				}
-				c.check(!inner, "R04.2", construct, c.ipos(s), "the request just received, written once", "the accepted request is written inside a loop: it can be sent more than once")
+			case c.fromQueue(arg, r.FCreqReq):
+				// written once per accepted request: the write cannot reach itself without
+				// going round the connection loop
+				s := s
+				again := reachFromUp(s, func(x ssa.Instruction) bool { return x == ssa.Instruction(s) }, func(x ssa.Instruction) bool { return x == ssa.Instruction(w.LoopSelect) })
+				c.check(again == nil, "R04.2", construct, c.ipos(s), "the request just received, written once", "the accepted request is written inside a loop: it can be sent more than once")
 			case c.isBuiltinNotification(arg):
 				c.ok("R04.2", construct, c.ipos(s), "locally built id-less built-in notification")
 			default:
@@ -568,34 +545,57 @@ func (c *Ctx) isWireCodeVsTemp(bo *ssa.BinOp, temp int64, have bool) bool {
 
 // isBuiltinNotification: a request literal with no id and a constant xrpc.* method.
 func (c *Ctx) isBuiltinNotification(v ssa.Value) bool {
-	ld, ok := v.(*ssa.UnOp)
-	if !ok || ld.Op != token.MUL {
+	ids := c.originsOf(v, c.R.FReqID)
+	ms := c.originsOf(v, c.R.FReqMethod)
+	if len(ids) == 0 || len(ms) == 0 {
 		return false
 	}
-	al, ok := ld.X.(*ssa.Alloc)
-	if !ok {
-		return false
-	}
-	method, idNil := "", true
-	for _, ref := range *al.Referrers() {
-		fa, ok := ref.(*ssa.FieldAddr)
-		if !ok {
+	for _, o := range ids {
+		if zeroFieldOrigin(o) {
 			continue
 		}
-		for _, r2 := range *fa.Referrers() {
-			st, ok := r2.(*ssa.Store)
-			if !ok || st.Addr != fa {
-				continue
-			}
-			switch fieldOfAddr(fa) {
-			case c.R.FReqID:
-				if !isNilConst(st.Val) {
-					idNil = false
-				}
-			case c.R.FReqMethod:
-				method, _ = constString(st.Val)
-			}
+		if len(o.Fields) != 0 || !isNilConst(o.Root) {
+			return false
 		}
 	}
-	return idNil && strings.HasPrefix(method, "xrpc.")
+	for _, o := range ms {
+		m, ok := constString(o.Root)
+		if len(o.Fields) != 0 || !ok || !strings.HasPrefix(m, "xrpc.") {
+			return false
+		}
+	}
+	return true
+}
+
+// zeroFieldOrigin: the origin is a field of a local struct that is never written
+// (and whose address never leaves the function): the zero value.
+func zeroFieldOrigin(o apath) bool {
+	al, ok := o.Root.(*ssa.Alloc)
+	if !ok || len(o.Fields) != 1 {
+		return false
+	}
+	for _, ref := range *al.Referrers() {
+		switch x := ref.(type) {
+		case *ssa.FieldAddr:
+			for _, r2 := range *x.Referrers() {
+				switch y := r2.(type) {
+				case *ssa.Store:
+					if y.Addr != ssa.Value(x) {
+						return false
+					}
+				case *ssa.UnOp, *ssa.DebugRef:
+				default:
+					return false
+				}
+			}
+		case *ssa.UnOp, *ssa.DebugRef:
+		case *ssa.Store:
+			if x.Addr != ssa.Value(al) {
+				return false
+			}
+		default:
+			return false
+		}
+	}
+	return true
 }
